@@ -1,5 +1,5 @@
 (* GENERATED on every run by harness/C08.py translate() with translate/pyexpr2coq_ext.py from
-   /tmp/mt-19830-19089/psiaudio/stim.py - do not edit.  sens = calibration.get_sens(frequency of the component);
+   /repo/psiaudio/stim.py - do not edit.  sens = calibration.get_sens(frequency of the component);
    msf = calibration.get_mean_sf(...); i = np.arange(samples); u = uniform deviate; w = filtered waveform. *)
 From Coq Require Import Reals.
 From PV Require Import Calib.RBase gen.CalibGen.
@@ -32,7 +32,7 @@ Definition sam_c_sample_noeq (sens_c level polarity i offset fs fc fm depth phas
 (* psiaudio/stim.py:1075  sam_tone  under calibration is not None = True, equalize = True, depth != 1 = False, eq_power = False  component 2  value of `s` *)
 Definition sam_ub_sample_noeq (sens_ub level polarity i offset fs fc fm depth phase_ub : R) : R :=
   (Rmult (Rmult (Rmult polarity (Rmult (cal_get_sf sens_ub level 0) (Rdiv 1 4))) (sqrt 2)) (cos (Rplus (Rmult (Rmult (Rmult 2 PI) (Rdiv (Rplus i offset) fs)) (Rplus fc (Rmult fm 1))) phase_ub))).
-(* psiaudio/stim.py:1334  ClickFactory.__init__  value of `self.waveform` *)
+(* psiaudio/stim.py:1336  ClickFactory.__init__  value of `self.waveform` *)
 Definition click_sample (sens level polarity : R) : R :=
   (Rmult (Rmult polarity (cal_get_sf sens level 0)) 1).
 (* psiaudio/stim.py:524  BroadbandNoiseFactory.__init__  under equalize = False, calibration is None = False  value of `self.low` *)
